@@ -371,6 +371,9 @@ impl Property for C11 {
     fn case_limit_s(&self) -> u64 {
         120
     }
+    fn fuzz(&self) -> Option<crate::FuzzSpec> {
+        Some(crate::FuzzSpec { label: "c11-history", max_len: 1200, runs: 1400 })
+    }
     fn run(&self, ctx: &mut Ctx) {
         let corpus_files = corpus();
         let cases = ctx.tier.pick(2_500, 50_000);
